@@ -156,12 +156,19 @@ type packageInfo struct {
 }
 
 func depsOf(name string, deps packageDeclsDeps) []*ast.Identifier {
-	for g, d := range deps {
-		if g.Name == name {
-			return d
+	// A name can be declared more than once (an error that is reported later):
+	// take the declaration that comes first in the source, not the one that
+	// the iteration over the map happens to reach first.
+	var first *ast.Identifier
+	for g := range deps {
+		if g.Name == name && (first == nil || g.Pos().Start < first.Pos().Start) {
+			first = g
 		}
 	}
-	return nil
+	if first == nil {
+		return nil
+	}
+	return deps[first]
 }
 
 func checkDepsPath(path []*ast.Identifier, deps packageDeclsDeps) []*ast.Identifier {
